@@ -1511,7 +1511,8 @@ def encode_value(parsed_tag: dict) -> bytes:
                     value,
                 ]
 
-            return _type.encode(value, value_elements)
+            # BOOL arrays are arrays of DWORDs, their length is the number of DWORDs not of bools
+            return _type.encode(value, elements if data_type == "DWORD" else value_elements)
 
         return _type.encode(value)
 
